@@ -682,6 +682,7 @@ def _token_tables_and_segments(ctx: Ctx):
     col.floor("token_table_sign_tests", n_tab, 2)
     _ali_moments_table(ctx)
     _ali_token_round_trip_table(ctx)
+    _plain_workers_tables(ctx)
     f = pkg.func(f"{MOD}::_print_torch_ali_data_dir_length_moments")
     from sa.defuse import ReachingDefs
     rd = ReachingDefs(f.node)
@@ -772,6 +773,99 @@ def _ali_token_round_trip_table(ctx: Ctx):
     col.count("ali_token_round_trip_rows", n)
     col.ob("G12", "S10", f"{rel}::ali<->token::round-trip-table", bad is None,
            (f"{bad[0]} on {bad[1]}: got {str(bad[2])[:160]}; expected {str(bad[3])[:160]}") if bad else "", rel, a2t.line, sample=dict(rows=n))
+
+
+def _plain_workers_tables(ctx: Ctx):
+    """S11 by value (sa/pyinterp.py): (a) the moment printer `_do_mv_printing` for pooled (sum, sum of squares, count) with counts 0, 1,
+    2 and 5, with and without Bessel's correction and --std: a single counted segment has mean = its length and variance 0 (n/a only for
+    the corrected variance), nothing counted prints n/a for both; (b) the per-utterance worker of the subsetting command against a
+    modelled directory in which the alignment of the utterance is missing: features (and the reference) are copied / linked, the missing
+    file is skipped - no exception, no dangling link."""
+    import math
+    from sa.pyinterp import PyInterp, Obj, Raised
+    from sa.inteval import NotEvaluable
+    col, pkg = ctx.col, ctx.pkg
+    rel = pkg.module(MOD).relname
+    # ---- (a)
+    f = pkg.func(f"{MOD}::_do_mv_printing")
+    bad, n = None, 0
+    try:
+        for s_, ss_, c_ in ((0, 0, 0), (5, 25, 1), (6, 20, 2), (20, 110, 5)):
+            for bessel in (False, True):
+                for std in (False, True):
+                    buf = []
+                    opts = Obj(precision=3, bessel=bessel, std=std, out=Obj(write=buf.append))
+                    kind, _ = PyInterp().run(f.node, dict(zip([p_.name for p_ in f.params], (s_, ss_, c_, opts))))
+                    n += 1
+                    if c_ == 0:
+                        want = "n/a (n/a)\n"
+                    else:
+                        mean = s_ / c_
+                        var = ss_ / c_ - mean ** 2
+                        if bessel and c_ == 1:
+                            v_txt = "n/a"
+                        else:
+                            if bessel:
+                                var *= c_ / (c_ - 1)
+                            v_txt = "{:0.03f}".format(math.sqrt(var) if std else var)
+                        want = "{:0.03f} ({})\n".format(mean, v_txt)
+                    got = "".join(buf) if kind == "return" else f"{kind}"
+                    if got != want and bad is None:
+                        bad = ((s_, ss_, c_), bessel, std, got, want)
+        col.count("moment_printer_rows", n)
+        col.ob("G12", "S11", f"{rel}::_do_mv_printing::moments-line-table", bad is None,
+               (f"pooled (sum, sum of squares, count) = {bad[0]}, bessel={bad[1]}, std={bad[2]}: the command prints {bad[3]!r}; the pooled moments are {bad[4]!r}") if bad else "",
+               rel, f.line, sample=dict(rows=n))
+    except NotEvaluable:
+        pass
+    # ---- (b)
+    g = pkg.func(f"{MOD}::_copy_spect_data_dir_do_work")
+    names = [p_.name for p_ in g.params]
+    bad, n = None, 0
+    try:
+        for cp in (0, 1, 2):
+            fs = {"src/feat/u.pt": "F", "src/ref/u.pt": "R", "src/ali/other.pt": "A"}
+            ops = []
+            holder = {}
+
+            def leaf(e, env):
+                it = holder["it"]
+                if isinstance(e, ast.Call):
+                    cn = call_name(e)
+                    if cn == "os.path.join":
+                        return "/".join(str(it.eval(a_, env)) for a_ in e.args)
+                    if cn == "os.path.exists":
+                        return ("yes",) if it.eval(e.args[0], env) in fs else ()
+                    if cn == "os.path.dirname":
+                        return str(it.eval(e.args[0], env)).rsplit("/", 1)[0]
+                    if cn == "os.path.relpath":
+                        return "<rel>" + str(it.eval(e.args[0], env))
+                if isinstance(e, ast.Attribute) and u(e) in ("shutil.copy", "shutil.copy2", "os.link", "os.symlink", "shutil.copyfile"):
+                    kind_ = u(e)
+
+                    def op(src, dst, kind_=kind_):
+                        real = src[5:] if src.startswith("<rel>") else src
+                        if kind_ != "os.symlink" and real not in fs:
+                            raise Raised("FileNotFoundError")
+                        ops.append((kind_, real, dst, real in fs))
+                        return dst
+                    return op
+                return None
+            it = PyInterp(leaf=leaf)
+            holder["it"] = it
+            kind, val = it.run(g.node, dict(zip(names, ("u.pt", "src", "dst", cp, "feat", "ali", "ref"))))
+            n += 1
+            made = sorted(d_ for _, _, d_, _ in ops)
+            dangling = [d_ for _, _, d_, ok_ in ops if not ok_]
+            ok = kind == "return" and made == ["dst/feat/u.pt", "dst/ref/u.pt"] and not dangling
+            if not ok and bad is None:
+                bad = (("copy", "symlink", "hard link")[cp], f"raises {val}" if kind != "return" else f"creates {made}" + (f", dangling: {dangling}" if dangling else ""))
+        col.count("subset_worker_rows", n)
+        col.ob("G12", "S11", f"{rel}::_copy_spect_data_dir_do_work::missing-optional-file-is-skipped", bad is None,
+               (f"with {bad[0]} and an utterance whose alignment file does not exist the worker {bad[1]}; documented: features and reference are "
+                f"carried over, the missing file is ignored") if bad else "", rel, g.line, sample=dict(rows=n))
+    except NotEvaluable:
+        pass
 
 
 def _ali_moments_table(ctx: Ctx):
